@@ -78,10 +78,33 @@ def random_kripke_data(rng, max_n=6, atoms=ATOMS2):
     return (list(range(n)), R, L)
 
 
+def initial_states(data):
+    """The S0 argument the checks build the structure `data` with: a fixed function of the structure (so that a
+    replay rebuilds the same object), cycling through no S0, the first state, the last state and every state.  No
+    property lets an answer depend on the initial states; a quarter of the structures is built without them."""
+    import zlib
+    S, R, L = data
+    S = list(S)
+    key = repr((sorted(map(repr, S)), sorted(map(repr, R)),
+                sorted((repr(k), sorted(map(repr, v))) for k, v in L.items()) if isinstance(L, dict) else repr(L)))
+    mode = zlib.crc32(key.encode()) % 4
+    if mode == 0 or not S:
+        return None
+    return [S[0]] if mode == 1 else [S[-1]] if mode == 2 else list(S)
+
+
 def mk_kripke(data):
     from pyModelChecking import Kripke
     S, R, L = data
-    return Kripke(S=S, R=R, L=L)
+    S0 = initial_states(data)
+    if S0 is None:
+        return Kripke(S=S, R=R, L=L)
+    return Kripke(S=S, S0=S0, R=R, L=L)
+
+
+def ktext(data):
+    S0 = initial_states(data)
+    return 'Kripke(S=%r,%sR=%r,L=%r)' % (data[0], '' if S0 is None else 'S0=%r,' % (S0,), data[1], data[2])
 
 
 def fairness_lists(states, max_len=2):
